@@ -119,6 +119,69 @@ def _rewrite_block(body: list[ast.stmt], st: _Pass) -> list[ast.stmt]:
         if isinstance(s, ast.Try):
             for h in s.handlers:
                 h.body = _rewrite_block(h.body, st)
+    # N11: `v = []` + `for t in it: [if c:] v.append(e)`  ->  `v = [e for t in it if c]`
+    k = 0
+    while k + 1 < len(body):
+        a, f = body[k], body[k + 1]
+        if (isinstance(a, ast.Assign) and len(a.targets) == 1 and isinstance(a.targets[0], ast.Name) and isinstance(a.value, ast.List) and not a.value.elts
+                and isinstance(f, (ast.For, ast.AsyncFor)) and not f.orelse):
+            v = a.targets[0].id
+            gens: list[ast.comprehension] = []
+            cur: ast.stmt | None = f
+            elt = None
+            while cur is not None:
+                if isinstance(cur, (ast.For, ast.AsyncFor)) and not cur.orelse and len(cur.body) == 1:
+                    gens.append(ast.comprehension(target=cur.target, iter=cur.iter, ifs=[], is_async=int(isinstance(cur, ast.AsyncFor))))
+                    cur = cur.body[0]
+                elif isinstance(cur, ast.If) and not cur.orelse and len(cur.body) == 1 and gens:
+                    gens[-1].ifs.append(cur.test)
+                    cur = cur.body[0]
+                elif (isinstance(cur, ast.Expr) and isinstance(cur.value, ast.Call) and isinstance(cur.value.func, ast.Attribute) and cur.value.func.attr == "append"
+                      and isinstance(cur.value.func.value, ast.Name) and cur.value.func.value.id == v and len(cur.value.args) == 1 and not cur.value.keywords):
+                    elt = cur.value.args[0]
+                    cur = None
+                else:
+                    gens = []
+                    cur = None
+            uses_v = elt is not None and any(isinstance(x, ast.Name) and x.id == v for g in gens for x in ast.walk(g)) or (elt is not None and any(isinstance(x, ast.Name) and x.id == v for x in ast.walk(elt)))
+            if elt is not None and gens and not uses_v:
+                a.value = ast.copy_location(ast.ListComp(elt=elt, generators=gens), a.value)
+                del body[k + 1]
+                st.changed = True
+                continue
+        k += 1
+    # N10: a `continue` that ends a loop body (directly, or as the whole handler of a try that
+    #      ends it) does nothing
+    for s in body:
+        if isinstance(s, (ast.For, ast.AsyncFor, ast.While)) and s.body:
+            tail_ = s.body[-1]
+            if isinstance(tail_, ast.Continue) and len(s.body) > 1:
+                s.body.pop()
+                st.changed = True
+            elif isinstance(tail_, ast.Try) and not tail_.finalbody and not tail_.orelse:
+                for h in tail_.handlers:
+                    if len(h.body) == 1 and isinstance(h.body[0], ast.Continue):
+                        h.body[0] = ast.copy_location(ast.Pass(), h.body[0])
+                        st.changed = True
+    # N8: `try: B except: <leaves> else: E`  ->  `try: B except: <leaves>` ; E
+    # N9: `try: ...; v = X except: <leaves>` ; `return v`  ->  `try: ...; return X except: <leaves>`
+    #     (returning a local cannot raise, so both are exact)
+    j = 0
+    while j < len(body):
+        s = body[j]
+        if isinstance(s, ast.Try) and s.handlers and not s.finalbody and all(_leaves(h.body) for h in s.handlers):
+            if s.orelse:
+                body[j + 1:j + 1] = s.orelse
+                s.orelse = []
+                st.changed = True
+            nxt = body[j + 1] if j + 1 < len(body) else None
+            last = s.body[-1] if s.body else None
+            if (isinstance(nxt, ast.Return) and isinstance(nxt.value, ast.Name) and isinstance(last, ast.Assign) and len(last.targets) == 1
+                    and isinstance(last.targets[0], ast.Name) and last.targets[0].id == nxt.value.id):
+                s.body[-1] = ast.copy_location(ast.Return(value=last.value), last)
+                del body[j + 1]
+                st.changed = True
+        j += 1
     # N2: else after a leaving branch
     i = 0
     while i < len(body):
@@ -185,7 +248,7 @@ class _IfExpPositive(ast.NodeTransformer):
         return node
 
 
-def _inline_single_use(fn: ast.AST, st: _Pass) -> None:
+def _inline_single_use(fn: ast.AST, st: _Pass, strict: bool = False) -> None:
     params = {a.arg for a in fn.args.posonlyargs + fn.args.args + fn.args.kwonlyargs}  # type: ignore[attr-defined]
     if fn.args.vararg:  # type: ignore[attr-defined]
         params.add(fn.args.vararg.arg)  # type: ignore[attr-defined]
@@ -265,6 +328,34 @@ def _inline_single_use(fn: ast.AST, st: _Pass) -> None:
         # a value that awaits / yields stays where it is
         if any(isinstance(x, (ast.Await, ast.Yield, ast.YieldFrom, ast.NamedExpr)) for x in ast.walk(asg.value)):
             continue
+        # nothing with an effect may lie between the binding and its (last) use: the value must
+        # mean the same thing where it is re-written
+        last = max(uses, key=lambda u: (u.lineno, u.col_offset))
+        last_stmt = last
+        while last_stmt is not None and not isinstance(last_stmt, ast.stmt):
+            last_stmt = getattr(last_stmt, "_parent", None)
+        between_bad = False
+        for x in ast.walk(fn):
+            if not isinstance(x, ast.stmt) or x is asg or x is fn:
+                continue
+            pos = (getattr(x, "lineno", 0), getattr(x, "col_offset", 0))
+            if not ((asg.lineno, asg.col_offset) < pos < (last_stmt.lineno, last_stmt.col_offset)):  # type: ignore[union-attr]
+                continue
+            if isinstance(x, (ast.If, ast.For, ast.AsyncFor, ast.While, ast.Try, ast.With, ast.AsyncWith)):
+                heads = [getattr(x, "test", None), getattr(x, "iter", None)] + [i.context_expr for i in getattr(x, "items", [])]
+                exprs = [h for h in heads if h is not None]
+            else:
+                exprs = [x]
+            for e_ in exprs:
+                for y in ast.walk(e_):
+                    if isinstance(y, (ast.Await, ast.Yield, ast.YieldFrom)) or (isinstance(y, ast.Call) and not (isinstance(y.func, ast.Name) and y.func.id in ("len", "isinstance", "str", "type", "hasattr"))):
+                        between_bad = True
+                    elif isinstance(y, (ast.Attribute, ast.Subscript)) and isinstance(getattr(y, "ctx", None), (ast.Store, ast.Del)):
+                        between_bad = True
+        if between_bad and strict:
+            # (strict = whole-module normalisation; a rule that opts in with norm() reads the
+            # result for matching only and is reviewed against this re-ordering)
+            continue
         replaced = 0
         for use in uses:
             par = getattr(use, "_parent", None)
@@ -321,8 +412,41 @@ def alpha(fn: ast.AST) -> ast.AST:
     return fn
 
 
+def normalize_tree(tree: ast.AST) -> None:
+    """Bring every function of a module into normal form, in place (innermost first)."""
+    fns = [n for n in ast.walk(tree) if isinstance(n, (ast.FunctionDef, ast.AsyncFunctionDef))]
+    for fn in reversed(fns):
+        _normalize_inplace(fn)
+        fn._normal = True  # type: ignore[attr-defined]
+    set_parents(tree)
+    tree._parent = None  # type: ignore[attr-defined]
+
+
+def _normalize_inplace(new: ast.AST) -> None:
+    for _ in range(50):
+        any_change = False
+        for _i in range(300):
+            st = _Pass()
+            _inline_single_use(new, st, strict=True)
+            if not st.changed:
+                break
+            any_change = True
+        for _i in range(300):
+            st = _Pass()
+            new.body = _rewrite_block(new.body, st)  # type: ignore[attr-defined]
+            _IfExpPositive(st).visit(new)
+            if not st.changed:
+                break
+            any_change = True
+        if not any_change:
+            break
+    ast.fix_missing_locations(new)
+
+
 def norm(fn: ast.AST) -> ast.AST:
     """Normal form of a function definition (cached per node)."""
+    if getattr(fn, "_normal", False):
+        return fn
     key = id(fn)
     hit = _CACHE.get(key)
     if hit is not None and getattr(hit, "_orig", None) is fn:
